@@ -183,7 +183,8 @@ def path_denotation(res):
         if m == "SKIP":
             continue
         text, hoisted, den, val = m.split("|")
-        prog = "(() => { %s; return (%s) })()" % (dec(hoisted), dec(text))
+        # (Q.e as in group.rs EXTRA_RUNTIME_ITEMS: an l-value path extended by further members, `null` staying `null`)
+        prog = "(() => { const Q = {e:function(a,b){return a&&b?a.concat(b):a}}; %s; return (%s) })()" % (dec(hoisted), dec(text))
         njobs.append({"op": "eval", "id": k, "expr": prog, "data": j["data"]})
         idx.append(k)
     out = node_jobs(njobs, shards=12)
@@ -191,7 +192,15 @@ def path_denotation(res):
     for k, o in zip(idx, out):
         j, m = jobs[k], model[k]
         text, hoisted, den, val = m.split("|")
-        if o.get("skip") or o.get("error"):
+        if o.get("skip"):
+            continue
+        if o.get("error"):
+            # the path text must evaluate whenever the model gives it a denotation
+            if den.startswith("D") and "is not defined" in o["error"]:
+                found += 1
+                if found <= 3:
+                    res.violation("the l-value path text of {{ %s }} does not evaluate under node: %s" % (j["text"], o["error"][:200]),
+                                  {"expr": j["text"], "path_text": dec(text)}, no_input=True)
             continue
         n += 1
         if den.startswith("D"):
